@@ -7,16 +7,55 @@
 //           (reclaim_stream.go; defect repaired by /repo bd1440f).
 //   sel 5   regression stream: a vote must not change the stored hierarchy nor later votes; law 117
 //           (alias_stream.go; defect repaired by /repo 6f3139f).
+//   sel 6   the real preempt action with topology-aware preemption on hierarchical capacity; law 118
+//           (preempt_stream.go; defects repaired by /repo 0a59b28, 8b56849).
+//   sel 7   JobEnqueueable votes and the real enqueue action, all three plugin modes; law 119
+//           (enqueue_stream.go).
 package main
 
 import (
+	"bytes"
 	"fmt"
+	"os"
+	"sync/atomic"
+	"syscall"
+
+	"k8s.io/klog/v2"
 
 	"verif/harness/internal/sched"
 	"verif/harness/internal/vh"
 )
 
+// Assertions of the code under test (pkg/scheduler/util/assert) panic by default.  The preempt
+// action evaluates nodes in worker goroutines, where a panic kills the whole harness and hides the
+// law verdicts of every other case.  The harness therefore runs with PANIC_ON_ERROR=false (the
+// assert package then logs the failure with a stack) and turns every logged assertion failure into
+// a per-case panic in the main goroutine, which vh reports as a violation of that case.
+var assertFailures atomic.Int64
+
+type assertWatch struct{}
+
+func (assertWatch) Write(p []byte) (int, error) {
+	if bytes.Contains(p, []byte("util/assert.Assert")) {
+		assertFailures.Add(1)
+	}
+	return len(p), nil
+}
+
+func reexecWithoutAssertPanics() {
+	if os.Getenv("PANIC_ON_ERROR") == "false" {
+		return
+	}
+	exe, err := os.Executable()
+	if err != nil {
+		return
+	}
+	_ = syscall.Exec(exe, os.Args, append(os.Environ(), "PANIC_ON_ERROR=false"))
+}
+
 func main() {
+	reexecWithoutAssertPanics()
+	klog.SetOutput(assertWatch{})
 	if probe() {
 		return
 	}
@@ -24,7 +63,13 @@ func main() {
 	var last voteRun
 	var lastObs []int64
 	h := vh.Harness{
-		Run2: func(sel int, in []int64) ([]int64, []int64) {
+		Run2: func(sel int, in []int64) (mi []int64, got []int64) {
+			before := assertFailures.Load()
+			defer func() {
+				if n := assertFailures.Load() - before; n > 0 {
+					panic(fmt.Sprintf("%d assertion failure(s) (pkg/scheduler/util/assert) in the code under test", n))
+				}
+			}()
 			switch sel {
 			case 1:
 				return cyc.Run2(sel, in)
@@ -41,6 +86,15 @@ func main() {
 				}
 				lastObs = runAliasCase(in)
 				return in, []int64{1}
+			case 6:
+				if len(in) != 8 {
+					panic("preempt case: 8 tokens expected")
+				}
+				lastObs = runPreemptCase(in)
+				return in, []int64{1}
+			case 7:
+				lastObs = runEnqueueCase(in)
+				return in, []int64{1}
 			}
 			modelIn, got, vr := runVotes(in)
 			last = vr
@@ -56,6 +110,12 @@ func main() {
 				return
 			case 5:
 				law(117, lastObs, "")
+				return
+			case 6:
+				law(118, lastObs, "")
+				return
+			case 7:
+				law(119, lastObs, "")
 				return
 			}
 			li := last.lawInput()
@@ -89,8 +149,37 @@ func genRegressionStreams(rng *vh.Rng, n int, emit func(id string, sel int, in [
 	emitReclaim("reclaim-witness", []int64{10, 6, 4, 2, 10, 8, 5, 0})
 	emitAlias("alias-witness", []int64{5, 2, 2, 1, 0})
 	emitAlias("alias-witness-enqueue", []int64{5, 2, 2, 1, 1})
+	// the real preempt action (topology-aware dry run) and the real enqueue action.  A preempt case
+	// is non-trivial when an ancestor or leaf capability is set and there are victims to choose from;
+	// an enqueue case when some PodGroup is already Inqueue with minResources and another one is Pending
+	// with minResources.
+	emitPreempt := func(id string, in []int64) {
+		emit(id, 6, in, "preempt-topology-aware/capacity-hierarchical/gates=default", (in[0] > 0 || in[6] > 0) && in[1] >= 2,
+			map[string]any{"capDept": in[0], "victims": in[1], "idle": in[2], "req": in[3], "sibling": in[4], "leafClosed": in[5], "capLeaf": in[6], "topologyAware": in[7]})
+	}
+	emitEnqueue := func(id string, in []int64) {
+		kind, qs, js := decEnqueue(in)
+		inq, pend, nopods := false, false, 0
+		for _, j := range js {
+			inq = inq || (j.Phase == 2 && j.HasMin != 0)
+			pend = pend || (j.Phase == 1 && j.HasMin != 0)
+			if j.Phase == 2 && j.NT == 0 {
+				nopods++
+			}
+		}
+		emit(id, 7, in, "enqueue-action/"+kindName(kind)+"/gates=default", inq && pend,
+			map[string]any{"queues": len(qs), "jobs": len(js), "inqueueWithoutPods": nopods})
+	}
+	emitPreempt("preempt-witness-mutantB", []int64{6, 4, 1, 2, 2, 0, 0, 1})
+	emitPreempt("preempt-witness-unfit", []int64{3, 2, 2, 3, 0, 0, 0, 1})
+	emitPreempt("preempt-witness-closed", []int64{0, 4, 0, 2, 0, 1, 0, 1})
+	for k := int64(1); k <= 3; k++ {
+		emitEnqueue(fmt.Sprintf("enqueue-witness-%d", k), enqueueWitness(k))
+	}
 	for i := 0; i < n; i++ {
 		emitReclaim(fmt.Sprintf("reclaim-%d", i), genReclaimCase(rng.Fork()))
 		emitAlias(fmt.Sprintf("alias-%d", i), genAliasCase(rng.Fork()))
+		emitPreempt(fmt.Sprintf("preempt-%d", i), genPreemptCase(rng.Fork()))
+		emitEnqueue(fmt.Sprintf("enqueue-%d", i), genEnqueueCase(rng.Fork()))
 	}
 }
